@@ -3,6 +3,15 @@ import GqlProofs.ValSpec.Stateful
 import GqlProofs.ValSpec.Spreads
 import GqlProofs.ValSpec.KnownDirs
 import GqlProofs.ValSpec.LeafFrag
+import GqlProofs.ValSpec.TypeRules
+import GqlProofs.ValSpec.Cycles
+import GqlProofs.ValSpec.InputFields
+import GqlProofs.ValSpec.SingleRootFinal
+import GqlProofs.ValSpec.SingleRootEx
+import GqlProofs.ValSpec.IntrospectionLinks
+import GqlProofs.ValSpec.PossibleSpreads
+import GqlProofs.ValSpec.UnusedFragments
+import GqlProofs.ValSpec.VarRules
 import GqlProofs.Validate.OverlapSound
 import GqlProofs.Validate.OverlapWitness
 /-
@@ -475,3 +484,570 @@ example : validate [singleFieldSubscriptions] SingleRootWitness.schema (SingleRo
 example : (match validate [singleFieldSubscriptions] SingleRootWitness.schema (SingleRootWitness.doc "S") with
     | .ok [_] => true
     | _ => false) = true := by decide
+
+/-! ## UniqueInputFieldNames -/
+section C08
+open Gql Gql.Validate Gql.Validate.Rules
+
+/-- §5.6.3 — UniqueInputFieldNames reports nothing iff the fields of every input object literal of
+    the document have different names (documents whose values have the parser's shape: only list
+    and object literals have children) -/
+theorem C08_UniqueInputFieldNames (s : Schema) (d : QueryDoc) (hsh : valuesShaped s d = true) :
+    validate [uniqueInputFieldNames] s d = .ok [] ↔ Spec.inputObjectFieldUniqueness s d = true := by
+  obtain ⟨evs, hw⟩ := walkDoc_isSome s.view d
+  unfold uniqueInputFieldNames
+  rw [validate_stateless_nil s d _ _ evs hw]
+  exact uniqueInputFieldNames_iff s d evs hw hsh
+
+/-- without the shape hypothesis: the specification predicate makes the rule silent -/
+theorem C08_UniqueInputFieldNames_sound (s : Schema) (d : QueryDoc) (h : Spec.inputObjectFieldUniqueness s d = true) : validate [uniqueInputFieldNames] s d = .ok [] := by
+  obtain ⟨evs, hw⟩ := walkDoc_isSome s.view d
+  unfold uniqueInputFieldNames
+  rw [validate_stateless_nil s d _ _ evs hw]
+  exact uniqueInputFieldNames_sound s d evs hw h
+
+/- The shape hypothesis.  `{ f(a: <v>) }` on the empty schema: -/
+namespace InputFieldsWitness
+def doc (v : Value) : QueryDoc :=
+  { ops := [{ op := opQuery, name := [], vars := [], dirs := [],
+              sel := .cons (.field [] (str "f") [⟨str "a", v, Pos.zero⟩] [] .nil Pos.zero) .nil, pos := Pos.zero }],
+    frags := [] }
+def int1 : Value := .mk .int (str "1") .nil Pos.zero
+/-- `{x: 1, x: 1}` -/
+def dupObj : Value := .mk .object [] (.cons (str "x") int1 Pos.zero (.cons (str "x") int1 Pos.zero .nil)) Pos.zero
+/-- `[{x: 1, x: 1}]` -/
+def dupInList : Value := .mk .list [] (.cons [] dupObj Pos.zero .nil) Pos.zero
+/-- not a value the parser builds: an Int literal that has `{x: 1, x: 1}` as a child -/
+def dupBelowInt : Value := .mk .int (str "1") (.cons [] dupObj Pos.zero .nil) Pos.zero
+end InputFieldsWitness
+
+open InputFieldsWitness in
+/-- the shape hypothesis is satisfiable on documents with (nested, duplicate) object literals, and
+    both sides of the equivalence reject there -/
+example : valuesShaped Schema.empty (doc dupInList) = true ∧
+    Spec.inputObjectFieldUniqueness Schema.empty (doc dupInList) = false ∧
+    validate [uniqueInputFieldNames] Schema.empty (doc dupInList) ≠ .ok [] := by decide
+
+open InputFieldsWitness in
+/-- without it the equivalence fails: the walker (like the Go walker) does not descend below a
+    value that is neither a list nor an object, the specification predicate does -/
+example : valuesShaped Schema.empty (doc dupBelowInt) = false ∧
+    validate [uniqueInputFieldNames] Schema.empty (doc dupBelowInt) = .ok [] ∧
+    Spec.inputObjectFieldUniqueness Schema.empty (doc dupBelowInt) = false := by decide
+
+#print axioms C08_UniqueInputFieldNames
+#print axioms C08_UniqueInputFieldNames_sound
+
+end C08
+
+/-! ## KnownTypeNames, VariablesAreInputTypes, KnownRootType -/
+section C08
+open Gql Gql.Validate Gql.Validate.Rules
+
+/-- §5.5.1.2 (and the existence of variable types) — KnownTypeNames reports nothing iff every type
+    condition written in the document (fragment definitions; inline fragments that have one) and
+    the named type of every variable definition is defined in the schema.  No hypothesis: an inline
+    fragment without type condition is skipped by the rule and by `Spec.typeConditions` alike, and a
+    fragment definition with the (unparseable) empty type condition is looked up by both. -/
+theorem C08_KnownTypeNames (s : Schema) (d : QueryDoc) :
+    validate [knownTypeNames] s d = .ok [] ↔
+      (Spec.fragmentSpreadTypeExistence s d = true ∧ Spec.variableTypesExist s d = true) := by
+  obtain ⟨evs, hw⟩ := walkDoc_isSome s.view d
+  unfold knownTypeNames
+  rw [validate_stateless_nil s d _ _ evs hw]
+  exact knownTypeNames_iff s d evs hw
+
+/-- the twin rule without suggestions is silent on exactly the same documents -/
+theorem C08_KnownTypeNamesWithoutSuggestions (s : Schema) (d : QueryDoc) :
+    validate [knownTypeNamesWithoutSuggestions] s d = .ok [] ↔
+      (Spec.fragmentSpreadTypeExistence s d = true ∧ Spec.variableTypesExist s d = true) := by
+  unfold knownTypeNamesWithoutSuggestions
+  rw [validate_withoutSuggestions_nil]
+  exact C08_KnownTypeNames s d
+
+/-- what VariablesAreInputTypes really tests: every variable whose named type EXISTS has an input
+    type (the rule is silent on a variable of an undefined type; KnownTypeNames reports that) -/
+theorem C08_VariablesAreInputTypes_iff (s : Schema) (d : QueryDoc) :
+    validate [variablesAreInputTypes] s d = .ok [] ↔
+      (d.ops.all fun op => op.vars.all fun v =>
+        match s.type? v.type.name with | some t => Spec.isInput t | none => true) = true := by
+  obtain ⟨evs, hw⟩ := walkDoc_isSome s.view d
+  unfold variablesAreInputTypes
+  rw [validate_stateless_nil s d _ _ evs hw]
+  exact variablesAreInputTypes_iff s d evs hw
+
+/-- §5.8.2, masked form — for documents whose variable types all exist, VariablesAreInputTypes
+    reports nothing iff the specification predicate holds -/
+theorem C08_VariablesAreInputTypes (s : Schema) (d : QueryDoc) (hex : Spec.variableTypesExist s d = true) :
+    validate [variablesAreInputTypes] s d = .ok [] ↔ Spec.variablesAreInputTypes s d = true := by
+  rw [C08_VariablesAreInputTypes_iff]
+  exact variablesAreInputTypes_masked s d hex
+
+/-- §5.5.1.2 ∧ §5.8.2, joint form without hypothesis: KnownTypeNames and VariablesAreInputTypes are
+    both silent iff every type condition is defined and every variable has an (existing) input type -/
+theorem C08_KnownTypeNames_VariablesAreInputTypes (s : Schema) (d : QueryDoc) :
+    (validate [knownTypeNames] s d = .ok [] ∧ validate [variablesAreInputTypes] s d = .ok []) ↔
+      (Spec.fragmentSpreadTypeExistence s d = true ∧ Spec.variablesAreInputTypes s d = true) := by
+  rw [C08_KnownTypeNames]
+  constructor
+  · rintro ⟨⟨h1, h2⟩, h3⟩
+    exact ⟨h1, (C08_VariablesAreInputTypes s d h2).1 h3⟩
+  · rintro ⟨h1, h2⟩
+    have hex := variablesAreInputTypes_exist s d h2
+    exact ⟨⟨h1, hex⟩, (C08_VariablesAreInputTypes s d hex).2 h2⟩
+
+/-- library rule — KnownRootType reports nothing (and does not panic) iff the schema defines the
+    root type of the kind of every operation.  NO hypothesis on the operation kinds is needed: for a
+    kind the parser never produces the rule panics (so the run is not `.ok []`) and
+    `Spec.rootDef` is `none` (so the specification predicate is false). -/
+theorem C08_KnownRootType (s : Schema) (d : QueryDoc) :
+    validate [knownRootType] s d = .ok [] ↔ Spec.knownRootType s d = true := by
+  obtain ⟨evs, hw⟩ := walkDoc_isSome s.view d
+  unfold knownRootType
+  rw [validate_statelessP_nil s d _ _ evs hw]
+  exact knownRootType_iff s d evs hw
+
+/-- the form with the parser-kinds hypothesis, as used by the other C08 theorems (a corollary) -/
+theorem C08_KnownRootType_parserKinds (s : Schema) (d : QueryDoc) (_hk : ∀ op ∈ d.ops, op.op ∈ parserOpKinds) :
+    validate [knownRootType] s d = .ok [] ↔ Spec.knownRootType s d = true :=
+  C08_KnownRootType s d
+
+/-- KnownRootType panics exactly when some operation has a kind the parser never produces; for
+    parser-produced documents it never does -/
+theorem C08_KnownRootType_panic_iff (s : Schema) (d : QueryDoc) :
+    (∃ m, validate [knownRootType] s d = .panic m) ↔ ∃ op ∈ d.ops, op.op ∉ parserOpKinds :=
+  knownRootType_panic_iff s d
+
+/- ---------- witnesses (kernel-checked) ---------- -/
+namespace TypeRulesWitness
+def at' (n : Nat) : Pos := { start := n, stop := n + 1, line := 1, col := n + 1 }
+def tNamed (n : String) : GType := .named (str n) false Pos.zero
+def scalar (n : String) : Definition :=
+  { kind := .scalar, desc := [], name := str n, dirs := [], interfaces := [], fields := [], types := [],
+    enumValues := [], pos := Pos.zero, builtIn := true }
+
+def objectDef (n : String) : Definition :=
+  { kind := .object, desc := [], name := str n, dirs := [], interfaces := [],
+    fields := [{ desc := [], name := str "f", args := [], default := none, type := tNamed "Int", dirs := [], pos := Pos.zero }],
+    types := [], enumValues := [], pos := Pos.zero, builtIn := false }
+
+/-- `type Query { f: Int }` with the scalar `Int` -/
+def schema : Schema :=
+  { Schema.empty with
+    query := some (str "Query"),
+    types := [(str "Int", scalar "Int"), (str "Query", objectDef "Query")] }
+
+def fld : Selection := .field [] (str "f") [] [] .nil (at' 30)
+
+/-- `<kind> ($v: <ty>) { f }` -/
+def docVar (kind ty : String) : QueryDoc :=
+  { ops := [{ op := str kind, name := [],
+              vars := [{ var := str "v", type := tNamed ty, default := none, dirs := [], pos := at' 7 }],
+              dirs := [], sel := .cons fld .nil, pos := at' 0 }],
+    frags := [] }
+
+/-- `{ ... on <tc> { f } }` (`tc = ""`: `{ ... { f } }`) -/
+def docInline (tc : String) : QueryDoc :=
+  { ops := [{ op := str "query", name := [], vars := [], dirs := [],
+              sel := .cons (.inline (str tc) [] (.cons fld .nil) (at' 2)) .nil, pos := at' 0 }],
+    frags := [] }
+end TypeRulesWitness
+open TypeRulesWitness
+
+/-- KnownTypeNames, both sides true: `query ($v: Int) { f }` … -/
+example : validate [knownTypeNames] schema (docVar "query" "Int") = .ok [] ∧
+    (Spec.fragmentSpreadTypeExistence schema (docVar "query" "Int") = true ∧
+      Spec.variableTypesExist schema (docVar "query" "Int") = true) := by decide
+/-- … and `{ ... { f } }`: an inline fragment without type condition is skipped by both sides -/
+example : validate [knownTypeNames] schema (docInline "") = .ok [] ∧
+    Spec.fragmentSpreadTypeExistence schema (docInline "") = true := by decide
+/-- both sides false: `{ ... on Nope { f } }` (type condition) and `query ($v: Nope) { f }` (variable type) -/
+example : validate [knownTypeNames] schema (docInline "Nope") ≠ .ok [] ∧
+    Spec.fragmentSpreadTypeExistence schema (docInline "Nope") = false := by decide
+example : validate [knownTypeNames] schema (docVar "query" "Nope") ≠ .ok [] ∧
+    Spec.variableTypesExist schema (docVar "query" "Nope") = false := by decide
+
+/-- the hypothesis `hex` of `C08_VariablesAreInputTypes` is NEEDED: on `query ($v: Nope) { f }` (a
+    variable of an undefined type) the rule is silent and the specification predicate is false -/
+example : validate [variablesAreInputTypes] schema (docVar "query" "Nope") = .ok [] ∧
+    Spec.variablesAreInputTypes schema (docVar "query" "Nope") = false ∧
+    Spec.variableTypesExist schema (docVar "query" "Nope") = false := by decide
+/-- … and satisfiable: `query ($v: Int) { f }` (both sides true), `query ($v: Query) { f }` (both false) -/
+example : Spec.variableTypesExist schema (docVar "query" "Int") = true ∧
+    validate [variablesAreInputTypes] schema (docVar "query" "Int") = .ok [] ∧
+    Spec.variablesAreInputTypes schema (docVar "query" "Int") = true := by decide
+example : Spec.variableTypesExist schema (docVar "query" "Query") = true ∧
+    validate [variablesAreInputTypes] schema (docVar "query" "Query") ≠ .ok [] ∧
+    Spec.variablesAreInputTypes schema (docVar "query" "Query") = false := by decide
+
+/-- KnownRootType: an operation of kind `foo` makes the run panic — and the specification predicate
+    is false there, so `C08_KnownRootType` needs no hypothesis on the kinds -/
+example : validate [knownRootType] schema (docVar "foo" "Int") = .panic (str "got unknown operation type \"foo\"") ∧
+    Spec.knownRootType schema (docVar "foo" "Int") = false := by decide
+/-- both sides true (`query`), both false without panic (`mutation`: the schema has no mutation type) -/
+example : (∀ op ∈ (docVar "query" "Int").ops, op.op ∈ parserOpKinds) ∧
+    validate [knownRootType] schema (docVar "query" "Int") = .ok [] ∧
+    Spec.knownRootType schema (docVar "query" "Int") = true := by decide
+example : (∀ op ∈ (docVar "mutation" "Int").ops, op.op ∈ parserOpKinds) ∧
+    (match validate [knownRootType] schema (docVar "mutation" "Int") with | .ok [_] => true | _ => false) = true ∧
+    Spec.knownRootType schema (docVar "mutation" "Int") = false := by decide
+
+#print axioms C08_KnownTypeNames
+#print axioms C08_KnownTypeNamesWithoutSuggestions
+#print axioms C08_VariablesAreInputTypes_iff
+#print axioms C08_VariablesAreInputTypes
+#print axioms C08_KnownTypeNames_VariablesAreInputTypes
+#print axioms C08_KnownRootType
+#print axioms C08_KnownRootType_parserKinds
+#print axioms C08_KnownRootType_panic_iff
+
+end C08
+
+/-! ## NoFragmentCycles -/
+section C08
+open Gql Gql.Validate Gql.Validate.Rules
+
+/-- NoFragmentCycles (§5.5.2.2), masked form: for a document with unique fragment names
+    (UniqueFragmentNames / §5.5.1.1) the rule reports nothing iff no fragment reaches itself through
+    spreads.  The direction `Spec.noFragmentCycles d = true → silent` holds without the hypothesis
+    (`noFragmentCycles_silent_of_spec`); unconditionally the rule is silent iff `Acyclic d`
+    (`validate_noFragmentCycles`, decidable as `acyclicB`); `noFragmentCycles_needs_unique` is the
+    counterexample without the hypothesis. -/
+theorem C08_NoFragmentCycles (s : Schema) (d : QueryDoc) (hu : Spec.fragmentNameUniqueness d = true) :
+    validate [noFragmentCycles] s d = .ok [] ↔ Spec.noFragmentCycles d = true :=
+  noFragmentCycles_iff s d hu
+
+#print axioms C08_NoFragmentCycles
+#print axioms Gql.Validate.validate_noFragmentCycles
+#print axioms Gql.Validate.noFragmentCycles_needs_unique
+end C08
+
+/-! ## PossibleFragmentSpreads -/
+section C08
+open Gql Gql.Validate Gql.Validate.Rules
+
+/-- §5.5.2.3 — PossibleFragmentSpreads reports nothing iff every fragment spread (named or inline) with a
+    determined composite parent type and composite fragment type can apply -/
+theorem C08_PossibleFragmentSpreads (s : Schema) (d : QueryDoc) (hwp : Spec.wellParented s d = true)
+    (hE : s.type? [] = none) (hok : possibleOK s = true) :
+    validate [possibleFragmentSpreads] s d = .ok [] ↔ Spec.fragmentSpreadIsPossible s d = true := by
+  obtain ⟨evs, hw⟩ := walkDoc_isSome s.view d
+  unfold possibleFragmentSpreads
+  rw [validate_stateless_nil s d _ _ evs hw]
+  exact possibleFragmentSpreads_iff s d evs hw hwp hE hok
+
+#print axioms C08_PossibleFragmentSpreads
+
+/-- every loaded schema satisfies the schema hypothesis (`C07_relations_exact`, `C07_closed_keys`) -/
+theorem C08_PossibleFragmentSpreads_loaded (s : Schema) (d : QueryDoc) (hr : Gql.Spec.RelationsExact s)
+    (hk : Gql.Spec.KeysConsistent s) (hwp : Spec.wellParented s d = true) (hE : s.type? [] = none) :
+    validate [possibleFragmentSpreads] s d = .ok [] ↔ Spec.fragmentSpreadIsPossible s d = true :=
+  C08_PossibleFragmentSpreads s d hwp hE (possibleOK_of_relationsExact s hr hk)
+
+/- Witnesses: the hypotheses are satisfiable, the theorem is not vacuous on either side, and none of the
+   three hypotheses can be dropped. -/
+namespace PossibleSpreadsWitness
+
+def mkDef (k : DefKind) (n : String) (ifaces : List String := []) (fields : List (String × String) := [])
+    (members : List String := []) : Definition :=
+  { kind := k, desc := [], name := str n, dirs := [], interfaces := ifaces.map str,
+    fields := fields.map fun (f, ty) =>
+      { desc := [], name := str f, args := [], default := none, type := .named (str ty) false Pos.zero, dirs := [],
+        pos := Pos.zero },
+    types := members.map str, enumValues := [], pos := Pos.zero, builtIn := false }
+
+/-- `type Q { a: A  i: I }  type A implements I { x: Q }  type B { x: Q }  interface I { x: Q }  union U = A
+    input In { f: A }` as the loader stores it -/
+def schema : Schema :=
+  { Schema.empty with
+    query := some (str "Q"),
+    types := [(str "Q", mkDef .object "Q" [] [("a", "A"), ("i", "I")]),
+              (str "A", mkDef .object "A" ["I"] [("x", "Q")]),
+              (str "B", mkDef .object "B" [] [("x", "Q")]),
+              (str "I", mkDef .interface "I" [] [("x", "Q")]),
+              (str "U", mkDef .union "U" [] [] ["A"]),
+              (str "In", mkDef .inputObject "In" [] [("f", "A")])],
+    possibleTypes := [(str "Q", [str "Q"]), (str "A", [str "A"]), (str "B", [str "B"]), (str "I", [str "A"]),
+                      (str "U", [str "A"])] }
+
+def fld (n : String) (sub : Selections := .nil) : Selection := .field (str n) (str n) [] [] sub Pos.zero
+def one (x : Selection) : Selections := .cons x .nil
+def queryDoc (sel : Selections) (frags : List FragmentDef := []) : QueryDoc :=
+  { ops := [{ op := str "query", name := [], vars := [], dirs := [], sel := sel, pos := Pos.zero }], frags := frags }
+def frag (n tc : String) (sel : Selections := .nil) : FragmentDef :=
+  { name := str n, vars := [], typeCond := str tc, dirs := [], sel := sel, pos := Pos.zero }
+
+/-- `{ i { ... on A { x } } }` -/
+def docGood : QueryDoc := queryDoc (one (fld "i" (one (.inline (str "A") [] (one (fld "x")) Pos.zero))))
+/-- `{ i { ... on B { x } ...FB } }  fragment FB on B { x }` -/
+def docBad : QueryDoc :=
+  queryDoc (one (fld "i" (.cons (.inline (str "B") [] (one (fld "x")) Pos.zero) (one (.spread (str "FB") [] Pos.zero)))))
+    [frag "FB" "B" (one (fld "x"))]
+
+/- (a) the hypotheses hold together, and both verdicts occur under them -/
+example : possibleOK schema = true ∧ schema.type? [] = none ∧
+    Spec.wellParented schema docGood = true ∧ Spec.wellParented schema docBad = true := by decide +kernel
+example : validate [possibleFragmentSpreads] schema docGood = .ok [] ∧
+    Spec.fragmentSpreadIsPossible schema docGood = true := by decide +kernel
+example : (match validate [possibleFragmentSpreads] schema docBad with | .ok [_, _] => true | _ => false) = true ∧
+    Spec.fragmentSpreadIsPossible schema docBad = false := by decide +kernel
+
+/-- (b) `s.type? [] = none` is needed: a type stored under the empty name makes the rule judge an inline
+    fragment WITHOUT type condition (`{ ... { } }`) against that type -/
+def schemaEmptyName : Schema :=
+  { schema with types := ([], mkDef .object "") :: schema.types, possibleTypes := ([], [[]]) :: schema.possibleTypes }
+def docNoCond : QueryDoc := queryDoc (one (.inline [] [] .nil Pos.zero))
+example : possibleOK schemaEmptyName = true ∧ Spec.wellParented schemaEmptyName docNoCond = true ∧
+    (match validate [possibleFragmentSpreads] schemaEmptyName docNoCond with | .ok [_] => true | _ => false) = true ∧
+    Spec.fragmentSpreadIsPossible schemaEmptyName docNoCond = true := by decide +kernel
+
+/-- (c) `possibleOK` is needed: with an empty `PossibleTypes` relation the rule rejects `{ i { ... on A } }` -/
+def schemaNoRel : Schema := { schema with possibleTypes := [] }
+example : possibleOK schemaNoRel = false ∧ schemaNoRel.type? [] = none ∧
+    Spec.wellParented schemaNoRel docGood = true ∧
+    (match validate [possibleFragmentSpreads] schemaNoRel docGood with | .ok [_] => true | _ => false) = true ∧
+    Spec.fragmentSpreadIsPossible schemaNoRel docGood = true := by decide +kernel
+
+/-- (d) `Spec.wellParented` is needed: `{ a { x } }  fragment F on In { f { ...G } }  fragment G on B { x }` — the
+    walker finds the input field `f: A` of the input object `In` and types its selection set `A`; for the
+    specification an input object has no selectable fields and the parent of `...G` is undetermined -/
+def docInput : QueryDoc :=
+  queryDoc (one (fld "a" (one (fld "x"))))
+    [frag "F" "In" (one (fld "f" (one (.spread (str "G") [] Pos.zero)))), frag "G" "B" (one (fld "x"))]
+example : possibleOK schema = true ∧ Spec.wellParented schema docInput = false ∧
+    (match validate [possibleFragmentSpreads] schema docInput with | .ok [_] => true | _ => false) = true ∧
+    Spec.fragmentSpreadIsPossible schema docInput = true := by decide +kernel
+
+end PossibleSpreadsWitness
+end C08
+
+/-! ## SingleFieldSubscriptions -/
+section C08
+open Gql Gql.Validate Gql.Validate.Rules
+
+/-- §5.2.3.1, the rule in its own terms — SingleFieldSubscriptions reports nothing iff, for every
+    subscription operation, the root fields collected by `CollectFields` (the specification's
+    `Spec.collectRootFields`) have at most one response key and the FIRST field of every response
+    key is not an introspection field. -/
+theorem C08_SingleFieldSubscriptions_exact (s : Schema) (d : QueryDoc)
+    (hschema : subscriptionRootExact s = true)
+    (hdef : Spec.fragmentSpreadTargetDefined d = true)
+    (htc : ∀ f ∈ d.frags, f.typeCond ≠ []) :
+    validate [singleFieldSubscriptions] s d = .ok [] ↔
+      ∀ op ∈ d.ops, op.op = Spec.kwSubscription → ∀ obj, Spec.rootDef s op.op = some obj →
+        RuleRootOK (Spec.collectRootFields s d obj op.sel) := by
+  obtain ⟨evs, hw⟩ := walkDoc_isSome s.view d
+  unfold singleFieldSubscriptions
+  rw [validate_statelessP_silent s d _ _ evs hw]
+  exact singleFieldSubscriptions_exact s d evs hw (opLinked_walkDoc s.view d evs hw) hschema hdef htc
+
+/-- §5.2.3.1, completeness — a document the specification accepts is not reported -/
+theorem C08_SingleFieldSubscriptions_complete (s : Schema) (d : QueryDoc)
+    (hschema : subscriptionRootExact s = true)
+    (hdef : Spec.fragmentSpreadTargetDefined d = true)
+    (htc : ∀ f ∈ d.frags, f.typeCond ≠ [])
+    (h : Spec.singleRootField s d = true) :
+    validate [singleFieldSubscriptions] s d = .ok [] := by
+  obtain ⟨evs, hw⟩ := walkDoc_isSome s.view d
+  unfold singleFieldSubscriptions
+  rw [validate_statelessP_silent s d _ _ evs hw]
+  exact singleFieldSubscriptions_of_spec s d evs hw (opLinked_walkDoc s.view d evs hw) hschema hdef htc h
+
+/-- §5.2.3.1 — SingleFieldSubscriptions reports nothing iff the specification predicate holds, for
+    a schema whose subscription root is exact (`subscriptionRootExact`), a document whose spreads
+    are defined and whose fragment definitions have a type condition, in which every subscription
+    selects at least one root field and equal response keys mean equal field names -/
+theorem C08_SingleFieldSubscriptions (s : Schema) (d : QueryDoc)
+    (hschema : subscriptionRootExact s = true)
+    (hdef : Spec.fragmentSpreadTargetDefined d = true)
+    (htc : ∀ f ∈ d.frags, f.typeCond ≠ [])
+    (hne : subscriptionsSelectRoot s d = true)
+    (hcons : rootKeysConsistent s d = true) :
+    validate [singleFieldSubscriptions] s d = .ok [] ↔ Spec.singleRootField s d = true := by
+  obtain ⟨evs, hw⟩ := walkDoc_isSome s.view d
+  unfold singleFieldSubscriptions
+  rw [validate_statelessP_silent s d _ _ evs hw]
+  exact singleFieldSubscriptions_iff s d evs hw (opLinked_walkDoc s.view d evs hw) hschema hdef htc hne hcons
+
+/-- the same for a schema with the loader's invariants (`C07_loaded_closed`, `C07_relations_exact`)
+    whose root operation types are object types (`Spec.rootTypesAreObjects`: not enforced by the loader) -/
+theorem C08_SingleFieldSubscriptions_loaded (s : Schema) (d : QueryDoc)
+    (hc : Gql.Spec.Closed s) (hr : Gql.Spec.RelationsExact s) (hroots : Gql.Spec.rootTypesAreObjects s = true)
+    (hdef : Spec.fragmentSpreadTargetDefined d = true)
+    (htc : ∀ f ∈ d.frags, f.typeCond ≠ [])
+    (hne : subscriptionsSelectRoot s d = true)
+    (hcons : rootKeysConsistent s d = true) :
+    validate [singleFieldSubscriptions] s d = .ok [] ↔ Spec.singleRootField s d = true :=
+  C08_SingleFieldSubscriptions s d (subscriptionRootExact_of_closed s hc hr hroots) hdef htc hne hcons
+
+#print axioms C08_SingleFieldSubscriptions_exact
+#print axioms C08_SingleFieldSubscriptions_complete
+#print axioms C08_SingleFieldSubscriptions
+#print axioms C08_SingleFieldSubscriptions_loaded
+
+end C08
+
+/-! ## MaxIntrospectionDepth -/
+section C08
+open Gql Gql.Validate Gql.Validate.Rules
+
+/-- MaxIntrospectionDepth (library-specific limit; `rules/max_introspection_depth.go`): on a
+    document whose fragment spreads form no cycle (§5.5.2.2, masked form) the rule reports nothing —
+    and does not panic — iff below no field named `__schema` / `__type` a path through
+    sub-selections, inline fragments and fragment spreads passes 3 list fields. -/
+theorem C08_MaxIntrospectionDepth (s : Schema) (d : QueryDoc) (hc : Spec.noFragmentCycles d = true) :
+    validate [maxIntrospectionDepth] s d = .ok [] ↔ Spec.maxIntrospectionDepth d = true := by
+  obtain ⟨evs, hw⟩ := walkDoc_isSome s.view d
+  unfold maxIntrospectionDepth
+  rw [validate_statelessP_nil s d _ _ evs hw]
+  exact maxIntrospectionDepth_iff s d evs hw hc
+
+/-- Without any hypothesis on the document: if the specification predicate holds, the rule reports
+    nothing (every reported error is a real violation).  The converse needs `Spec.noFragmentCycles`
+    (`IntrospectionWitness.docCyc_counterexample`). -/
+theorem C08_MaxIntrospectionDepth_sound (s : Schema) (d : QueryDoc) (h : Spec.maxIntrospectionDepth d = true) :
+    validate [maxIntrospectionDepth] s d = .ok [] := by
+  obtain ⟨evs, hw⟩ := walkDoc_isSome s.view d
+  unfold maxIntrospectionDepth
+  rw [validate_statelessP_nil s d _ _ evs hw]
+  exact maxIntrospectionDepth_of_spec s d evs hw h
+
+#print axioms C08_MaxIntrospectionDepth
+#print axioms C08_MaxIntrospectionDepth_sound
+#print axioms Gql.Validate.IntrospectionWitness.docCyc_counterexample
+
+end C08
+
+/-! ## NoUnusedFragments, NoUndefinedVariables, NoUnusedVariables (per-operation scope of the walk) -/
+section C08
+open Gql Gql.Validate Gql.Validate.Rules
+
+/-- §5.5.1.4, masked form — on a document without fragment cycles (§5.5.2.2) and with pairwise
+    different fragment names (§5.5.1.1) NoUnusedFragments reports nothing iff every fragment
+    definition is the target of a spread.  (The rule asks for more than the specification text:
+    reachability from an OPERATION — and, "first fragment quirk", it also counts what the
+    stand-alone walk of the first fragment definition meets; on acyclic documents with unique names
+    the three notions coincide: `used_reachable`.) -/
+theorem C08_NoUnusedFragments (s : Schema) (d : QueryDoc) (hc : Spec.noFragmentCycles d = true)
+    (hu : Spec.fragmentNameUniqueness d = true) :
+    validate [noUnusedFragments] s d = .ok [] ↔ Spec.fragmentsMustBeUsed d = true :=
+  noUnusedFragments_iff s d hc hu
+
+/-- one direction without hypothesis: a document NoUnusedFragments accepts satisfies §5.5.1.4 -/
+theorem C08_NoUnusedFragments_complete (s : Schema) (d : QueryDoc)
+    (h : validate [noUnusedFragments] s d = .ok []) : Spec.fragmentsMustBeUsed d = true :=
+  noUnusedFragments_spec_of_silent s d h
+
+/-- the rule in its own terms, both directions without hypothesis on the document: reachability
+    from an operation suffices, and a silent rule means reachability from an operation or from the
+    first fragment definition -/
+theorem C08_NoUnusedFragments_reach (s : Schema) (d : QueryDoc) :
+    ((∀ f ∈ d.frags, ∃ op ∈ d.ops, Reach d (Spec.spreadsOfSels op.sel) f.name) →
+      validate [noUnusedFragments] s d = .ok []) ∧
+    (validate [noUnusedFragments] s d = .ok [] →
+      ∀ f ∈ d.frags, (∃ op ∈ d.ops, Reach d (Spec.spreadsOfSels op.sel) f.name) ∨
+        (∃ f1, d.frags.head? = some f1 ∧ Reach d (Spec.spreadsOfSels f1.sel) f.name)) :=
+  ⟨noUnusedFragments_complete s d, noUnusedFragments_sound s d⟩
+
+/-- §5.8.3 — NoUndefinedVariables reports nothing iff every variable used in the scope of an
+    operation (the operation and the fragment definitions it references transitively, the
+    directives of the definitions included) is defined by it; for documents with pairwise different
+    fragment names whose default values are constant (what the grammar allows) -/
+theorem C08_NoUndefinedVariables (s : Schema) (d : QueryDoc) (hu : Spec.fragmentNameUniqueness d = true)
+    (hcd : constDefaults d = true) :
+    validate [noUndefinedVariables] s d = .ok [] ↔ Spec.allVariableUsesDefined s d = true := by
+  obtain ⟨evs, hw⟩ := walkDoc_isSome s.view d
+  unfold noUndefinedVariables
+  rw [validate_stateless_nil s d _ _ evs hw]
+  exact noUndefinedVariables_iff s d evs hw hu hcd
+
+/-- §5.8.4 — NoUnusedVariables reports nothing iff every variable of an operation is used in its
+    scope; additionally the variable names of each operation are pairwise different (§5.8.1: the
+    walker marks the FIRST definition of a name as used) -/
+theorem C08_NoUnusedVariables (s : Schema) (d : QueryDoc) (hu : Spec.fragmentNameUniqueness d = true)
+    (hcd : constDefaults d = true) (hv : Spec.variableUniqueness d = true) :
+    validate [noUnusedVariables] s d = .ok [] ↔ Spec.allVariablesUsed s d = true := by
+  obtain ⟨evs, hw⟩ := walkDoc_isSome s.view d
+  unfold noUnusedVariables
+  rw [validate_stateless_nil s d _ _ evs hw]
+  exact noUnusedVariables_iff s d evs hw hu hcd hv
+
+namespace ScopeWitness
+def at' (n : Nat) : Pos := { start := n, stop := n + 1, line := 1, col := n + 1 }
+def fld (n : String) (args : List Argument := []) (p : Nat := 0) : Selection := .field [] (str n) args [] .nil (at' p)
+def frag (n : String) (sel : Selections) (p : Nat) : FragmentDef :=
+  { name := str n, vars := [], typeCond := str "Q", dirs := [], sel := sel, pos := at' p }
+def query (vars : List VarDef) (sel : Selections) : OperationDef :=
+  { op := str "query", name := [], vars := vars, dirs := [], sel := sel, pos := at' 0 }
+def var (n : String) (p : Nat) (dflt : Option Value := none) : VarDef :=
+  { var := str n, type := .named (str "Int") false Pos.zero, default := dflt, dirs := [], pos := at' p }
+def useVar (n : String) (p : Nat) : List Argument :=
+  [{ name := str "x", value := .mk .variable (str n) .nil (at' p), pos := at' (p - 1) }]
+
+/-- `{ ...A } fragment A on Q { ...B } fragment B on Q { y }` -/
+def docChain : QueryDoc :=
+  { ops := [query [] (.cons (.spread (str "A") [] (at' 2)) .nil)],
+    frags := [frag "A" (.cons (.spread (str "B") [] (at' 30)) .nil) 10, frag "B" (.cons (fld "y" [] 50) .nil) 40] }
+/-- `{ ...C } fragment C on Q { y } fragment A on Q { ...B } fragment B on Q { ...A }`: a cycle nobody reaches -/
+def docCycle : QueryDoc :=
+  { ops := [query [] (.cons (.spread (str "C") [] (at' 2)) .nil)],
+    frags := [frag "C" (.cons (fld "y" [] 15) .nil) 10,
+              frag "A" (.cons (.spread (str "B") [] (at' 30)) .nil) 20, frag "B" (.cons (.spread (str "A") [] (at' 60)) .nil) 40] }
+/-- `{ ...A } fragment A on Q { x } fragment A on Q { ...B } fragment B on Q { y }`: `B` is spread
+    only by the second (shadowed) definition of `A` -/
+def docShadow : QueryDoc :=
+  { ops := [query [] (.cons (.spread (str "A") [] (at' 2)) .nil)],
+    frags := [frag "A" (.cons (fld "x" [] 20) .nil) 10, frag "A" (.cons (.spread (str "B") [] (at' 50)) .nil) 40,
+              frag "B" (.cons (fld "y" [] 80) .nil) 70] }
+
+/-- `query($a: Int) { f(x: $a) }` -/
+def docVarOk : QueryDoc := { ops := [query [var "a" 6] (.cons (fld "f" (useVar "a" 20) 15) .nil)], frags := [] }
+/-- `query($a: Int) { f(x: $b) }` -/
+def docVarUndef : QueryDoc := { ops := [query [var "a" 6] (.cons (fld "f" (useVar "b" 20) 15) .nil)], frags := [] }
+/-- `query($a: Int = $b) { f(x: $a) }` (not grammatical: a default value is constant) -/
+def docVarDefault : QueryDoc :=
+  { ops := [query [var "a" 6 (some (.mk .variable (str "b") .nil (at' 12)))] (.cons (fld "f" (useVar "a" 20) 15) .nil)], frags := [] }
+/-- `query($a: Int, $a: Int) { f(x: $a) }` -/
+def docVarTwice : QueryDoc := { ops := [query [var "a" 6, var "a" 12] (.cons (fld "f" (useVar "a" 25) 20) .nil)], frags := [] }
+end ScopeWitness
+open ScopeWitness
+
+/-- the hypotheses of `C08_NoUnusedFragments` are satisfiable (both sides true) … -/
+example : Spec.noFragmentCycles docChain = true ∧ Spec.fragmentNameUniqueness docChain = true ∧
+    validate [noUnusedFragments] Schema.empty docChain = .ok [] ∧ Spec.fragmentsMustBeUsed docChain = true := by
+  decide +kernel
+/-- … `hc` is needed: an unreachable cycle uses its members (specification) but no operation does (rule) … -/
+example : Spec.noFragmentCycles docCycle = false ∧ Spec.fragmentNameUniqueness docCycle = true ∧
+    validate [noUnusedFragments] Schema.empty docCycle ≠ .ok [] ∧ Spec.fragmentsMustBeUsed docCycle = true := by
+  decide +kernel
+/-- … and `hu` is needed: a spread written in a shadowed definition counts for the specification only -/
+example : Spec.noFragmentCycles docShadow = true ∧ Spec.fragmentNameUniqueness docShadow = false ∧
+    validate [noUnusedFragments] Schema.empty docShadow ≠ .ok [] ∧ Spec.fragmentsMustBeUsed docShadow = true := by
+  decide +kernel
+
+/-- the hypotheses of `C08_NoUndefinedVariables` / `C08_NoUnusedVariables` are satisfiable, both sides true … -/
+example : Spec.fragmentNameUniqueness docVarOk = true ∧ constDefaults docVarOk = true ∧ Spec.variableUniqueness docVarOk = true ∧
+    validate [noUndefinedVariables] Schema.empty docVarOk = .ok [] ∧ Spec.allVariableUsesDefined Schema.empty docVarOk = true ∧
+    validate [noUnusedVariables] Schema.empty docVarOk = .ok [] ∧ Spec.allVariablesUsed Schema.empty docVarOk = true := by
+  decide +kernel
+/-- … both sides false … -/
+example : Spec.fragmentNameUniqueness docVarUndef = true ∧ constDefaults docVarUndef = true ∧ Spec.variableUniqueness docVarUndef = true ∧
+    validate [noUndefinedVariables] Schema.empty docVarUndef ≠ .ok [] ∧ Spec.allVariableUsesDefined Schema.empty docVarUndef = false ∧
+    validate [noUnusedVariables] Schema.empty docVarUndef ≠ .ok [] ∧ Spec.allVariablesUsed Schema.empty docVarUndef = false := by
+  decide +kernel
+/-- … `hcd` is needed: a variable inside a default value is a use for the walker, not for the specification … -/
+example : constDefaults docVarDefault = false ∧
+    validate [noUndefinedVariables] Schema.empty docVarDefault ≠ .ok [] ∧
+    Spec.allVariableUsesDefined Schema.empty docVarDefault = true := by
+  decide +kernel
+/-- … and `hv` is needed for NoUnusedVariables: the second definition of a name is never marked used -/
+example : Spec.variableUniqueness docVarTwice = false ∧ constDefaults docVarTwice = true ∧
+    validate [noUnusedVariables] Schema.empty docVarTwice ≠ .ok [] ∧ Spec.allVariablesUsed Schema.empty docVarTwice = true := by
+  decide +kernel
+
+#print axioms C08_NoUnusedFragments
+#print axioms C08_NoUnusedFragments_complete
+#print axioms C08_NoUnusedFragments_reach
+#print axioms C08_NoUndefinedVariables
+#print axioms C08_NoUnusedVariables
+end C08
